@@ -116,7 +116,7 @@ def admissible_zones(lang='en'):
 # known word another meaning (one wrong number among many) makes the oracle and the implementation disagree.
 INDEPENDENT_MONTHS = {
     'en': {'january': 1, 'february': 2, 'march': 3, 'april': 4, 'may': 5, 'june': 6, 'july': 7, 'august': 8, 'september': 9, 'october': 10,
-           'november': 11, 'december': 12, 'jan': 1, 'feb': 2, 'mar': 3, 'apr': 4, 'jun': 6, 'jul': 7, 'aug': 8, 'sep': 9, 'sept': 9, 'oct': 10, 'nov': 11, 'dec': 12},
+           'november': 11, 'december': 12, 'jan': 1, 'feb': 2, 'mar': 3, 'apr': 4, 'jun': 6, 'jul': 7, 'aug': 8, 'sep': 9, 'oct': 10, 'nov': 11, 'dec': 12},
     'tr': {'ocak': 1, 'şubat': 2, 'subat': 2, 'mart': 3, 'nisan': 4, 'mayıs': 5, 'mayis': 5, 'haziran': 6, 'temmuz': 7, 'ağustos': 8, 'agustos': 8,
            'eylül': 9, 'eylul': 9, 'ekim': 10, 'kasım': 11, 'kasim': 11, 'aralık': 12, 'aralik': 12,
            'oca': 1, 'şub': 2, 'sub': 2, 'mar': 3, 'nis': 4, 'may': 5, 'haz': 6, 'tem': 7, 'ağu': 8, 'agu': 8, 'eyl': 9, 'eki': 10, 'kas': 11, 'ara': 12},
@@ -139,14 +139,21 @@ def _constants(lang):
     """constant_pair of the language with the meanings of known words taken from the independent dictionary"""
     table = dict(config()['languages'][lang]['constant_pair'])
     known = INDEPENDENT_CONSTANTS.get(lang, {})
-    return {w: known.get(w, n) for w, n in table.items()}
+    out = {w: known.get(w, n) for w, n in table.items()}
+    out.update(known)          # a known word that a table has lost is still a word of the language
+    return out
 
 
 def months(lang):
     """-> (long: {name: n}, short: {name: n}) every configured spelling (meaning of known names from the independent dictionary)"""
     L = config()['languages'][lang]
     known = INDEPENDENT_MONTHS.get(lang, {})
-    return ({w: known.get(w, n) for w, n in L['long_months'].items()}, {w: known.get(w, n) for w, n in L['short_months'].items()})
+    lm = {w: known.get(w, n) for w, n in L['long_months'].items()}
+    sm = {w: known.get(w, n) for w, n in L['short_months'].items()}
+    for w, n in known.items():
+        if w not in lm and w not in sm:
+            (sm if len(w) <= 3 or w == 'sept' else lm)[w] = n      # a known name that a table has lost is still a month name
+    return lm, sm
 
 
 def print_months(lang):
@@ -173,7 +180,7 @@ DAY_WORDS = {8: 'today', 9: 'tomorrow', 10: 'yesterday', 11: 'now'}
 def duration_words(lang):
     """unit -> [spellings] for words that are both in duration_group and constant_pair"""
     L = config()['languages'][lang]
-    grp = set(L['word_group'].get('duration_group', []))
+    grp = set(L['word_group'].get('duration_group', [])) | set(INDEPENDENT_CONSTANTS.get(lang, {}))
     out = {}
     for w, n in _constants(lang).items():
         if n in DUR_UNITS and w in grp:
